@@ -1,10 +1,11 @@
 (* Props/C14.v — pinned statements for property C14 (lexing tiles the input and
-   decodes literals exactly). *)
+   decodes literals exactly).  Statements closed by [exact lemma], non-vacuity
+   examples, Print Assumptions. *)
 From RJ Require Import Base.Outcome Model.Token Model.Utf8 Model.Lexer
   Proofs.Utf8_proofs Proofs.Lexer_proofs Gen.LexTables.
 Local Open Scope N_scope.
 
-(* T: the tables found in the current source are the model's *)
+(* ---- T: the tables found in the current source are the model's ---- *)
 Theorem C14_keyword_table : src_keywords = keyword_table.
 Proof. reflexivity. Qed.
 Theorem C14_operator_table : src_operators = operator_table.
@@ -21,12 +22,63 @@ Theorem C14_utf8_tables :
   src_utf8_lead = lead_table /\ src_utf8_second3 = second3_table /\ src_utf8_second4 = second4_table.
 Proof. repeat split; reflexivity. Qed.
 
-Theorem C14_decode_is_lossy_refuted : exists bs, @decode_all unit bs <> Ok (lossy bs).
-Proof. exact decode_is_lossy_refuted. Qed.
+(* ---- UTF-8: the decoder of the lexer is lossy decoding ---- *)
+Theorem C14_decode_is_lossy : forall bs, bytes_ok bs -> @decode_all lex_error bs = Ok (lossy bs).
+Proof. exact (@decode_is_lossy lex_error). Qed.
+
+Theorem C14_decode_no_panic : forall b0 rest, b0 < 256 -> bytes_ok rest ->
+  exists k oc, @decode_cont_char lex_error b0 rest = Ok (k, oc) /\ (k <= length rest)%nat.
+Proof. exact (@decode_no_panic lex_error). Qed.
+
+Theorem C14_decode_scalar : forall b0 rest k c,
+  @decode_cont_char lex_error b0 rest = Ok (k, Some c) -> is_scalar c = true.
+Proof. exact (@decode_scalar lex_error). Qed.
+
+(* the specification [lossy] inverts the textbook UTF-8 encoder on every
+   sequence of Unicode scalar values *)
+Theorem C14_lossy_encode : forall s, Forall (fun c => is_scalar c = true) s ->
+  lossy (utf8_encode_all s) = s.
+Proof. exact lossy_encode_all. Qed.
+
+(* ---- tiling, filter, located error, fuel, no panic ---- *)
+Theorem C14_lex_tiles : forall input toks, bytes_ok input -> lex_all true input = Ok toks ->
+  tiles 0 (input_len input) (map tok_span toks) /\
+  exists pre, toks = pre ++ [eof_at (input_len input)] /\
+              Forall (fun t => is_eof (tok_kind t) = false /\ nonempty (tok_span t)) pre.
+Proof. exact lex_tiles. Qed.
 
 Theorem C14_lex_filter : forall input,
   lex_all false input = omap (filter non_trivia) (lex_all true input).
 Proof. exact lex_filter. Qed.
+
+Theorem C14_lex_error_located : forall keep input e, bytes_ok input ->
+  lex_all keep input = Err e -> located (input_len input) e.
+Proof. exact lex_error_located. Qed.
+
+Theorem C14_fuel_sufficient : forall keep input, bytes_ok input -> lex_all keep input <> OutOfFuel.
+Proof. exact fuel_sufficient. Qed.
+
+Theorem C14_lex_no_panic : forall keep input site, bytes_ok input -> lex_all keep input <> Panic site.
+Proof. exact lex_no_panic. Qed.
+
+Theorem C14_lex_total : forall keep input, bytes_ok input ->
+  (exists toks, lex_all keep input = Ok toks) \/
+  (exists e, lex_all keep input = Err e /\ located (input_len input) e).
+Proof. exact lex_total. Qed.
+
+(* ---- non-vacuity: the hypotheses are met by non-trivial inputs, and the
+   model computes inside the kernel ---- *)
+Example C14_nonvacuous :
+  let src := bytes_of_string "local x = 1_0.5e-3; /* c */ x +: 'aé' @'q''' |||" ++ [10; 32; 240; 159; 152; 128; 10] ++ bytes_of_string "|||" in
+  bytes_ok src /\
+  (exists toks, lex_all true src = Ok toks /\ length toks = 21%nat) /\
+  (exists toks, lex_all false src = Ok toks /\ length toks = 11%nat) /\
+  (exists e, lex_all true (bytes_of_string "'\uD800'") = Err e /\ err_span e = (1, 7)) /\
+  @decode_all lex_error [0xC1; 0x81; 0xE2; 0x82; 0xAC; 0xED; 0xA0] = Ok [0xFFFD; 0xFFFD; 0x20AC; 0xFFFD; 0xFFFD].
+Proof.
+  vm_compute. repeat split; try (eexists; split; reflexivity).
+  repeat constructor.
+Qed.
 
 Print Assumptions C14_keyword_table.
 Print Assumptions C14_operator_table.
@@ -34,5 +86,14 @@ Print Assumptions C14_single_table.
 Print Assumptions C14_op_classes.
 Print Assumptions C14_escape_table.
 Print Assumptions C14_utf8_tables.
-Print Assumptions C14_decode_is_lossy_refuted.
+Print Assumptions C14_decode_is_lossy.
+Print Assumptions C14_decode_no_panic.
+Print Assumptions C14_decode_scalar.
+Print Assumptions C14_lossy_encode.
+Print Assumptions C14_lex_tiles.
 Print Assumptions C14_lex_filter.
+Print Assumptions C14_lex_error_located.
+Print Assumptions C14_fuel_sufficient.
+Print Assumptions C14_lex_no_panic.
+Print Assumptions C14_lex_total.
+Print Assumptions C14_nonvacuous.
